@@ -327,6 +327,12 @@ func (r *Recorder) WaitSession(timeout time.Duration, kind, remoteAddr string) (
 	return r.Wait(timeout, 0, func(e Event) bool { return e.Kind == kind && e.RemoteAddr == remoteAddr })
 }
 
+// WaitSessionFrom is WaitSession restricted to events recorded at index ≥ from (local ports are
+// reused across thousands of connections, so an old event may carry the same remote address).
+func (r *Recorder) WaitSessionFrom(timeout time.Duration, from int, kind, remoteAddr string) (Event, bool) {
+	return r.Wait(timeout, from, func(e Event) bool { return e.Kind == kind && e.RemoteAddr == remoteAddr })
+}
+
 func (r *Recorder) Len() int {
 	r.mu.Lock()
 	defer r.mu.Unlock()
